@@ -178,7 +178,7 @@ def gen_merge(tree):
         (re.compile(r"warning\(MystWarnings\.MD_TOPMATTER, f?[\"']'myst' key not a dict.*\)"), warn("WNotDict")),
         (re.compile(r"warning\(MystWarnings\.MD_TOPMATTER, f?[\"']top-level 'html_meta' key is deprecated.*\)"), warn("WDeprecatedHtmlMeta")),
         (re.compile(r"warning\(MystWarnings\.MD_TOPMATTER, f?[\"']top-level 'substitutions' key is deprecated.*\)"), warn("WDeprecatedSubstitutions")),
-        (re.compile(r"warning\(MystWarnings\.MD_TOPMATTER, f'Unknown field: \{name\}'\)"), warn("WUnknownField name")),
+        (re.compile(r"warning\(MystWarnings\.MD_TOPMATTER, f?[\"']Unknown field: .*\)"), warn("WUnknownField name")),
         ("warning(MystWarnings.MD_TOPMATTER, str(exc))", warn("WInvalid (name_str name)")),
         ("updates['html_meta'] = topmatter['html_meta']", "let updates := dict_set s_html_meta (top_at s_html_meta topmatter) updates in"),
         ("updates['substitutions'] = topmatter['substitutions']", "let updates := dict_set s_substitutions (top_at s_substitutions topmatter) updates in"),
